@@ -287,6 +287,51 @@ for _, m := range []dhcpv6.Modifier{
 	m(v)
 }''')
 
+# ------------------------------------------------------------ "empty element in the middle" shapes
+# (an accessor that filters, compacts or sorts its list in place is only visible when an empty /
+# zero element is FOLLOWED by a non-empty one)
+K = "v6-message"
+def msg6(name, opts, held=(), pre=""):
+    code = (pre + "\n" if pre else "") + "v := &dhcpv6.Message{MessageType: dhcpv6.MessageTypeRequest, TransactionID: dhcpv6.TransactionID{1, 2, 3}, Options: dhcpv6.MessageOptions{Options: dhcpv6.Options{" + opts + "}}}"
+    add(K, "empty-middle/" + name, code, held)
+
+msg6("user-class-a-empty-b", "&dhcpv6.OptUserClass{UserClasses: uc}", ["uc"], 'uc := [][]byte{[]byte("a"), {}, []byte("b")}')
+msg6("user-class-empty-first", "&dhcpv6.OptUserClass{UserClasses: uc}", ["uc"], 'uc := [][]byte{{}, []byte("x"), {}, []byte("yz")}')
+msg6("vendor-class-a-empty-b", "&dhcpv6.OptVendorClass{EnterpriseNumber: 9, Data: data}", ["data"], 'data := [][]byte{[]byte("a"), {}, []byte("b")}')
+msg6("bootfile-param-a-empty-b", "dhcpv6.OptBootFileParam(params...)", ["params"], 'params := []string{"a", "", "b"}')
+msg6("dns-unspecified-in-the-middle", "dhcpv6.OptDNS(ips...)", ["ips"], 'ips := []net.IP{net.ParseIP("2001:db8::2"), net.ParseIP("::"), net.ParseIP("2001:db8::1")}')
+msg6("oro-code-0-in-the-middle", "dhcpv6.OptRequestedOption(codes...)", ["codes"], "codes := []dhcpv6.OptionCode{dhcpv6.OptionDomainSearchList, 0, dhcpv6.OptionDNSRecursiveNameServer}")
+msg6("arch-0-in-the-middle", "dhcpv6.OptClientArchType(archs...)", ["archs"], "archs := []iana.Arch{iana.EFI_X86_64, iana.INTEL_X86PC, iana.EFI_ARM64}")
+msg6("4o6-servers-unspecified-in-the-middle", "&dhcpv6.OptDHCP4oDHCP6Server{DHCP4oDHCP6Servers: ips}", ["ips"], 'ips := []net.IP{net.ParseIP("2001:db8::2"), net.ParseIP("::"), net.ParseIP("2001:db8::1")}')
+msg6("domain-list-empty-name-in-the-middle", "dhcpv6.OptDomainSearchList(&rfc1035label.Labels{Labels: names})", ["names"], 'names := []string{"b.example.org", "", "a.example.com"}')
+msg6("ia-na-zero-lifetime-address-in-the-middle", '&dhcpv6.OptIANA{IaId: [4]byte{1, 2, 3, 4}, T1: time.Second, T2: 2 * time.Second, Options: dhcpv6.IdentityOptions{Options: dhcpv6.Options{&dhcpv6.OptIAAddress{IPv6Addr: net.ParseIP("2001:db8::2"), PreferredLifetime: time.Second, ValidLifetime: time.Second}, &dhcpv6.OptStatusCode{StatusCode: iana.StatusSuccess}, &dhcpv6.OptIAAddress{IPv6Addr: net.ParseIP("::")}, &dhcpv6.OptIAAddress{IPv6Addr: net.ParseIP("2001:db8::1"), PreferredLifetime: time.Second, ValidLifetime: time.Second}}}}')
+msg6("vendor-opts-empty-sub-option-in-the-middle", "&dhcpv6.OptVendorOpts{EnterpriseNumber: 9, VendorOpts: dhcpv6.Options{&dhcpv6.OptionGeneric{OptionCode: 3, OptionData: []byte{1}}, &dhcpv6.OptionGeneric{OptionCode: 2}, &dhcpv6.OptionGeneric{OptionCode: 1, OptionData: []byte{2}}}}")
+msg6("ntp-empty-fqdn-in-the-middle", '&dhcpv6.OptNTPServer{Suboptions: dhcpv6.Options{&dhcpv6.NTPSuboptionSrvFQDN{Labels: rfc1035label.Labels{Labels: []string{"b.example"}}}, &dhcpv6.NTPSuboptionSrvFQDN{}, &dhcpv6.NTPSuboptionSrvFQDN{Labels: rfc1035label.Labels{Labels: []string{"a.example"}}}}}')
+msg6("all-of-them", """&dhcpv6.OptUserClass{UserClasses: [][]byte{[]byte("a"), {}, []byte("b")}}, &dhcpv6.OptVendorClass{EnterpriseNumber: 9, Data: [][]byte{[]byte("a"), {}, []byte("b")}},
+	dhcpv6.OptBootFileParam("a", "", "b"), dhcpv6.OptDNS(net.ParseIP("2001:db8::2"), net.ParseIP("::"), net.ParseIP("2001:db8::1")),
+	dhcpv6.OptRequestedOption(dhcpv6.OptionDomainSearchList, 0, dhcpv6.OptionDNSRecursiveNameServer), dhcpv6.OptClientArchType(iana.EFI_X86_64, iana.INTEL_X86PC, iana.EFI_ARM64),
+	&dhcpv6.OptDHCP4oDHCP6Server{DHCP4oDHCP6Servers: []net.IP{net.ParseIP("2001:db8::2"), net.ParseIP("::"), net.ParseIP("2001:db8::1")}}""")
+add(K, "empty-middle/relayed-user-class-a-empty-b", """uc := [][]byte{[]byte("a"), {}, []byte("b")}
+inner := &dhcpv6.Message{MessageType: dhcpv6.MessageTypeRequest, TransactionID: dhcpv6.TransactionID{1, 2, 3}, Options: dhcpv6.MessageOptions{Options: dhcpv6.Options{&dhcpv6.OptUserClass{UserClasses: uc}, dhcpv6.OptRequestedOption(24, 0, 23)}}}
+v := &dhcpv6.RelayMessage{MessageType: dhcpv6.MessageTypeRelayForward, LinkAddr: net.ParseIP("2001:db8::a"), PeerAddr: net.ParseIP("fe80::b"), Options: dhcpv6.RelayOptions{Options: dhcpv6.Options{dhcpv6.OptInterfaceID([]byte("if1")), dhcpv6.OptRelayMessage(inner)}}}""", ["uc"])
+
+K = "v4-packet"
+add(K, "built/empty-middle-elements", "v := " + BASE4 + """
+v.UpdateOption(dhcpv4.OptRFC3004UserClass([]string{"a", "", "b"}))
+v.UpdateOption(dhcpv4.OptDNS(net.IP{10, 0, 0, 2}, net.IP{0, 0, 0, 0}, net.IP{10, 0, 0, 1}))
+v.UpdateOption(dhcpv4.OptParameterRequestList(dhcpv4.OptionDomainName, dhcpv4.GenericOptionCode(0), dhcpv4.OptionRouter))
+v.UpdateOption(dhcpv4.OptVIVC(dhcpv4.VIVCIdentifier{EntID: 9, Data: []byte{3}}, dhcpv4.VIVCIdentifier{EntID: 0}, dhcpv4.VIVCIdentifier{EntID: 4491, Data: []byte{1}}))
+v.UpdateOption(dhcpv4.OptClientArch(iana.EFI_X86_64, iana.INTEL_X86PC, iana.EFI_ARM64))
+v.UpdateOption(dhcpv4.OptDomainSearch(&rfc1035label.Labels{Labels: []string{"b.example.org", "", "a.example.com"}}))
+v.UpdateOption(dhcpv4.OptRelayAgentInfo(dhcpv4.OptGeneric(dhcpv4.GenericOptionCode(5), []byte{1}), dhcpv4.OptGeneric(dhcpv4.AgentRemoteIDSubOption, nil), dhcpv4.OptGeneric(dhcpv4.AgentCircuitIDSubOption, []byte("c"))))""")
+K = "v4-typed-value"
+add(K, "Strings/a-empty-b", 'ss := []string{"a", "", "b"}\nv := dhcpv4.Strings(ss)', ["ss"])
+add(K, "IPs/zero-in-the-middle", "ips := []net.IP{{10, 0, 0, 2}, {0, 0, 0, 0}, {10, 0, 0, 1}}\nv := dhcpv4.IPs(ips)", ["ips"])
+K = "v6-option"
+add(K, "ctor/OptUserClass-a-empty-b", 'uc := [][]byte{[]byte("a"), {}, []byte("b")}\nv := &dhcpv6.OptUserClass{UserClasses: uc}', ["uc"])
+add(K, "ctor/OptVendorClass-a-empty-b", 'data := [][]byte{[]byte("a"), {}, []byte("b")}\nv := &dhcpv6.OptVendorClass{EnterpriseNumber: 9, Data: data}', ["data"])
+add(K, "ctor/OptBootFileParam-a-empty-b", 'params := []string{"a", "", "b"}\nv := dhcpv6.OptBootFileParam(params...)', ["params"])
+
 # ------------------------------------------------------------ output
 def gostr(s):
     assert "`" not in s
